@@ -66,7 +66,10 @@ def cases(ctx):
         same_nl = cpr.nl(e0["rlat"]) == cpr.nl(e1["rlat"])
         for _ in range(2 if not ctx.thorough else 8):
             rla, rlo = cpr.displace(la, lo, rng.choice(range(0, 360, 22)) + 0.0, rng.choice([0.0, 5.0, 44.9, rng.uniform(0, 44.9)]))
-            if cpr.haversine_nm(la, lo, rla, rlo) > 44.95 or abs(cpr.angdiff(F(rlo), F(lo))) >= 45:
+            # the receiver must satisfy the hypothesis for BOTH frames' positions (near the poles 0.2 NM is a
+            # noticeable fraction of a degree of longitude), with a margin for the quantisation step
+            if (cpr.haversine_nm(la, lo, rla, rlo) > 44.9 or cpr.haversine_nm(la2, lo2, rla, rlo) > 44.9
+                    or abs(cpr.angdiff(F(rlo), F(lo))) >= F(449, 10) or abs(cpr.angdiff(F(rlo), F(lo2))) >= F(449, 10)):
                 continue
             for later in (0, 1):
                 t0 = rng.randrange(10, 10 ** 6)
